@@ -1110,7 +1110,7 @@ func genScripts(repo string) (string, string, error) {
 	var b strings.Builder
 	b.WriteString("(* GENERATED by /verif/translate (gen_scripts.go) from " + scriptsSrc + " -- DO NOT EDIT.\n")
 	b.WriteString("   Regenerated on every check run; see notes/SCRIPT.md. *)\n")
-	b.WriteString("From Coq Require Import List NArith ZArith Bool.\n")
+	b.WriteString("From Coq Require Import List NArith ZArith Bool String.\n")
 	b.WriteString("From LV Require Import Script.Interp Script.Witness.\n")
 	b.WriteString("Import ListNotations.\nLocal Open Scope N_scope.\n\n")
 
@@ -1370,7 +1370,8 @@ func genScripts(repo string) (string, string, error) {
 		fmt.Fprintf(&b, "(* %s, %s:%d *)\n", fd.Name.Name, scriptsSrc, wf.line)
 		if wf.alias != "" {
 			fmt.Fprintf(&b, "Notation %s := %s (only parsing).\n", name, snake(wf.alias))
-			fmt.Fprintf(&b, "Notation %s_shape := %s_shape (only parsing).\n\n", name, snake(wf.alias))
+			fmt.Fprintf(&b, "Notation %s_shape := %s_shape (only parsing).\n", name, snake(wf.alias))
+			fmt.Fprintf(&b, "Notation %s_params := %s_params (only parsing).\n\n", name, snake(wf.alias))
 			nWit++
 			continue
 		}
@@ -1449,6 +1450,16 @@ func genScripts(repo string) (string, string, error) {
 			fmt.Fprintf(&b, " (%s : data)", p)
 		}
 		fmt.Fprintf(&b, " : list data :=\n  %s.\n", render(valOf))
+		// the symbolic items in parameter order: the theorems pin this list, so that a
+		// reordering of the witness elements changes what they say instead of silently
+		// permuting the (positional) parameters
+		{
+			var q []string
+			for _, pn := range pnames {
+				q = append(q, fmt.Sprintf("%q%%string", pn))
+			}
+			fmt.Fprintf(&b, "Definition %s_params : list string := [%s].\n", name, strings.Join(q, "; "))
+		}
 		fmt.Fprintf(&b, "Example %s_shape_ok : forall%s", name, flagUse)
 		for _, p := range pnames {
 			b.WriteString(" " + p)
